@@ -161,3 +161,16 @@ def register(claim, na):
         "CrossHair/z3 over the real list-and-integer logic + SymTrace path exploration with z3 for the real-valued parts",
         "DESIGN.md §1 E2/E3, §2 C13",
     )
+    claim(
+        "C14", "model_checking",
+        "CrossHair (z3) confirms over all paths one inductive step per entry point from an ARBITRARY counter pre-state (symbolic non-negative "
+        "counters, symbolic n_samples, per-circuit lists <= 3 vs batches <= 3): BaseCircuitRunner.run_and_measure / run_batch_and_measure (int and "
+        "list forms) / get_measurement_outcome_distribution, BaseWavefunctionSimulator.get_wavefunction over circuits of <= 4 mock operations with "
+        "symbolic native flags (jobs += maximal runs, circuits += native runs, every operation handled once in order at full width), the "
+        "simulator's rejections, and the tracking wrapper (returns the wrapped result, counters after the wrapped runner accepted): invalid => "
+        "ValueError with counters unchanged and nothing executed; valid => one result per circuit in order and exact counter growth.",
+        "The inductive step covers histories of any length for the counter clauses. _run_and_measure, operations, the native hook and the tracker's "
+        "record/save are counting stubs; CUT-FMT. Shots >= requested, bitstring length = width and the tracker's JSON record are ground instances on the real simulator.",
+        "CrossHair/z3 symbolic execution of the real runner base classes from symbolic pre-states (inductive step) with counting stubs",
+        "DESIGN.md §1 E3, §2 C14",
+    )
